@@ -130,10 +130,27 @@ func (s *handler4LogSlog) WithGroup(name string) logslog.Handler {
 
 // withFields returns a cloned Handler with the given fields.
 func (s *handler4LogSlog) withFields(fields ...Attr) *handler4LogSlog {
-	cloned := &handler4LogSlog{
-		New().SetAttrs(fields...),
+	var parent *Entry
+	switch z := s.Logger.(type) {
+	case *Entry:
+		parent = z
+	case *logimp:
+		parent = z.Entry
 	}
-	return cloned
+	if parent == nil {
+		return &handler4LogSlog{s.Logger.WithAttrs(fields...)}
+	}
+	// derive from the logger behind this handler (not from a brand-new
+	// detached one), so that the derived handler keeps writing to the same
+	// destination, in the same format and at the same level. A child logger
+	// copies level and format; writers, time settings and the receiver's
+	// attributes are handed over here.
+	child := newentry(parent) // not registered in parent.items: With() is often called per request
+	child.writer = parent.writer
+	child.timeLayout, child.modeUTC = parent.timeLayout, parent.modeUTC
+	child.extraFrames, child.contextKeys = parent.extraFrames, parent.contextKeys
+	child.attrs = append(append(Attrs{}, parent.attrs...), fields...)
+	return &handler4LogSlog{child}
 }
 
 var _ logslog.Handler = (*handler4LogSlog)(nil)
